@@ -1,10 +1,15 @@
 #!/bin/bash
-# usage: thor.sh <Cxx...>   thorough tier, sequentially, one summary line each (logs in .run/thor/)
+# usage: thor.sh <Cxx...>   thorough tier, sequentially, one summary line each (logs in .run/thor/), with the peak
+# resident memory of all worker processes (sampled every 2 s)
 cd "$(dirname "$0")/.."
 mkdir -p .run/thor
+T=${TIER:-thorough}
 for id in "$@"; do
   s=$(date +%s)
-  VERIF_SEED=${VERIF_SEED:-1} ./vcheck $id --tier thorough > .run/thor/$id.log 2>&1; rc=$?
-  echo "rc=$rc $(($(date +%s)-s))s $(tail -1 .run/thor/$id.log)"
+  ( peak=0; while sleep 2; do m=$(ps -eo rss,args | awk '/wshake|wpkg/ && !/awk/ {s+=$1} END {print int(s/1024)}'); [ "$m" -gt "$peak" ] && peak=$m && echo $peak > .run/thor/$id.peak; done ) &
+  W=$!
+  VERIF_SEED=${VERIF_SEED:-1} ./vcheck $id --tier $T > .run/thor/$id.log 2>&1; rc=$?
+  kill $W 2>/dev/null
+  echo "rc=$rc $(($(date +%s)-s))s peakMB=$(cat .run/thor/$id.peak 2>/dev/null) $(tail -1 .run/thor/$id.log)"
   grep "^VIOLATION\|^INCONCLUSIVE" .run/thor/$id.log | head -5
 done
